@@ -92,7 +92,12 @@ func errs(c Cfg, ch <-chan error) {
 func Scenario(c Cfg) {
 	ctx, cancel := context.WithCancel(context.Background())
 	in := make(chan int, c.InCap)
+	gate := make(chan struct{})
+	if c.Stage != "fold2" {
+		close(gate)
+	}
 	go func() {
+		<-gate
 		for _, x := range c.Input {
 			select {
 			case in <- x:
@@ -192,6 +197,26 @@ func Scenario(c Cfg) {
 		}()
 	case "void":
 		consume("done", fork.Void(ctx, c.Par, in), -1)
+	case "fold2":
+		// two independent folds: a wide one (Par workers) whose input stays idle until a small one has delivered. Nothing
+		// the first one holds (workers parked on an empty input) may keep the second one from running.
+		empty, op := Monoid(c.Monoid)
+		m := monoid.FromOp(empty, op)
+		wide := fork.Fold(ctx, c.Par, in, m) // `in` is fed by the producer above, which waits for the gate
+		in2 := make(chan int, 2)
+		in2 <- 5
+		in2 <- 6
+		close(in2)
+		small := fork.Fold(ctx, 2, in2, m)
+		env.WatchClosed("gotb", small)
+		go func() {
+			for x := range small {
+				env.Log("gotb", x)
+			}
+			env.Log("gotb-eof")
+			close(gate)
+		}()
+		consume("got", wide, c.Stop)
 	case "fold":
 		empty, op := Monoid(c.Monoid)
 		m := monoid.FromOp(empty, op)
